@@ -24,11 +24,11 @@ ConnectTimeouts == { <<>>, <<"5", "0", "0", "0">>, <<"3", "0", "0", "0", "0", "0
                      <<"5", "0", "0", "0", "m", "s">>, <<"5", ".", "5">>, <<" ", "5", "0", "0", "0">>,
                      <<"1", "2", "3", "4", "5", "6", "7", "8", "9", "0", "1">>, <<"0", "x", "1", "0">> }
 Mk(k, me, ma, ct, cd, enc, th, to, b, lim) ==
-  [kind |-> k, method |-> me, major |-> ma, ctype |-> ct, codecs |-> cd, enc |-> enc, theader |-> th,
+  [kind |-> k, method |-> me, major |-> ma[1], minor |-> ma[2], ctype |-> ct, codecs |-> cd, enc |-> enc, theader |-> th,
    timeout |-> to, body |-> b, limit |-> lim]
 \* dispatch: methods x versions x content types x codec sets
 InitDispatch ==
-  \E k \in Kinds, me \in {"POST", "GET", "PUT", "DELETE", "OPTIONS", "post", "HEAD"}, ma \in {1, 2}, ct \in CTs,
+  \E k \in Kinds, me \in {"POST", "GET", "PUT", "DELETE", "OPTIONS", "post", "HEAD"}, ma \in {<<1, 0>>, <<1, 1>>, <<2, 0>>}, ct \in CTs,
      cd \in {<<>>, <<"verifc">>} :
     InitWith(Mk(k, me, ma, ct, cd, "none", "none", <<>>, "good", 0))
 \* timeouts
@@ -36,7 +36,7 @@ InitTimeout ==
   \E k \in Kinds, ct \in {"application/proto", "application/connect+proto", "application/grpc", "application/grpc-web+proto"},
      th \in {"connect", "grpc"}, enc \in {"none", "unknown"} :
     \E to \in (IF th = "connect" THEN ConnectTimeouts ELSE GrpcTimeouts) :
-      InitWith(Mk(k, "POST", 2, ct, <<>>, enc, th, to, "good", 0))
+      InitWith(Mk(k, "POST", <<2, 0>>, ct, <<>>, enc, th, to, "good", 0))
 \* bodies
 InitBody ==
   \E k \in Kinds, ct \in {"application/proto", "application/json", "application/connect+proto", "application/connect+json",
@@ -46,7 +46,7 @@ InitBody ==
     /\ (b = "oversize" => lim > 0)
     \* a unary Connect body is one message: "several frames" classes do not exist there
     /\ (k = "unary" /\ ct \in {"application/proto", "application/json"} => b \notin {"two", "msgthenbad", "truncated"})
-    /\ InitWith(Mk(k, "POST", 2, ct, <<"verifc">>, enc, "none", <<>>, b, lim))
+    /\ InitWith(Mk(k, "POST", <<2, 0>>, ct, <<"verifc">>, enc, "none", <<>>, b, lim))
 MCInit == InitDispatch \/ InitTimeout \/ InitBody
 MCSpec == MCInit /\ [][Next]_vars
 GenSpec == MCInit /\ [][FALSE]_vars
